@@ -662,9 +662,25 @@ pub fn compiled_batch(seed: u64, n_hist: usize, n_fam: usize) -> Batch {
                 Variant { name: "IOError".into(), shape: Shape::Tuple, transient: false, record: Record { fields: vec![f("field0", Ty::Str)], steps: vec![] } },
                 Variant { name: "Aa".into(), shape: Shape::Struct, transient: false, record: Record { fields: vec![f("n", Ty::U16)], steps: vec![] } },
                 Variant { name: "AB".into(), shape: Shape::Unit, transient: false, record: Record { fields: vec![], steps: vec![] } },
+                // one name continuing another at a capital or a digit
+                Variant { name: "GetAll".into(), shape: Shape::Unit, transient: false, record: Record { fields: vec![], steps: vec![] } },
+                Variant { name: "Get".into(), shape: Shape::Tuple, transient: false, record: Record { fields: vec![f("field0", Ty::U8)], steps: vec![] } },
+                Variant { name: "V10".into(), shape: Shape::Unit, transient: false, record: Record { fields: vec![], steps: vec![] } },
+                Variant { name: "V1".into(), shape: Shape::Unit, transient: false, record: Record { fields: vec![], steps: vec![] } },
             ],
         },
     }));
+    // only unit constructors, some of them transient (and one more than once)
+    for (n, sorted) in [("AllUnitT", false), ("AllUnitTS", true)] {
+        specials.push(Arc::new(Decl {
+            name: n.into(),
+            body: DeclBody::Enum {
+                sorted,
+                steps: vec![],
+                variants: ["Red", "Blinking", "Green", "Amber", "Off"].iter().map(|v| Variant { name: v.to_string(), shape: Shape::Unit, transient: *v == "Blinking" || *v == "Amber", record: Record { fields: vec![], steps: vec![] } }).collect(),
+            },
+        }));
+    }
     // more constructors than one var-int byte can number
     specials.push(Arc::new(Decl {
         name: "Wide".into(),
